@@ -186,11 +186,20 @@ structure State (V : Type) where
   handles : List (String × Back V)
   /-- services of `Cfg.services` that are currently NOT in the cluster view (`Cluster.UpdateClusterTopology`
   without them): `GetServicePID` finds nothing.  The node STATE a member is published with
-  (Init / Working / Retiring / Retired) is deliberately not part of the state: `GetServicePID`,
-  which push, query and forward use, does not look at it. -/
+  (Init / Working / Retiring / Retired) is not part of this state: `GetServicePID`, which push, query and
+  forward-by-rule use, does not look at it.  Only the default route does; it is handed to `step` as `dr`
+  (`defaultRoute cfg view`). -/
   away : List String := []
+  /-- connections whose socket is closed (`ClientSession.Close`: client gone, `Kick`) while their
+  `RemoveSession` is still QUEUED on the front-end's scheduler: `IsClosed()` is true, the session is
+  still in `ClientSessions.sessions`.  Emptied at the end of every turn (`flush`). -/
+  closing : List Conn := []
 
-def State.init {V : Type} : State V := { next := [], fronts := [], handles := [], away := [] }
+def State.init {V : Type} : State V := { next := [], fronts := [], handles := [], away := [], closing := [] }
+
+/-- `ClientSession.Close()`: status closed, `OnSessionClose` posts the removal (once) -/
+def markClosing {V : Type} (s : State V) (c : Conn) : State V :=
+  if s.closing.contains c then s else { s with closing := c :: s.closing }
 
 /-- `app.GetServicePID(name) != nil` for a front-end: it is known and a cluster member -/
 def State.reach {V : Type} (s : State V) (cfg : Cfg) (name : String) : Bool :=
@@ -223,6 +232,17 @@ inductive SOp (V : Type) where
   | query
   | json
   | keep (h : String)
+  /-- `IServerSession.Kick()`: a FrontSession closes its socket at once (`s.Session.Close()`), a BackSession
+  asks its front-end to (`x.sys.kick`, no callback; `ClientSessions.Kick` → `FrontSession.Kick`).  Either way
+  the session stays in the front-end's map until the queued `RemoveSession` runs: after the current turn. -/
+  | kick
+  /-- harness device, no effect on any session: the front-end is busy until this turn of the handler ends,
+  so what the handler sends reaches it as one batch -/
+  | busy
+  /-- `cs.CloneBackSession(from)`, the clone kept under handle `h`: a NEW session object for the same
+  connection — same service, front-end name and connection id, `Data[_ID] = from.GetID()` (which prefers a
+  locally bound uid); nothing else of Data, nothing of NewData, not dirty -/
+  | clone (h : String)
   -- pure layer (bare objects)
   | pushTo (c : Conn)      -- `F.Data.UpdateFromJson(B.NewData.ToJson())`
   | fromF (c : Conn)       -- `B.FromJson(F.ToJson())`
@@ -275,6 +295,9 @@ def sstepFront (cfg : Cfg) (s : State V) (c : Conn) (kept : Option String) (op :
     | .push | .pushNW | .query => ⟨s, .front c, kept, (if cfg.isFront c.1 then .ok else .nons), []⟩
     | .json => ⟨s, .front c, kept, .json (SData.toJson m), []⟩
     | .keep _ => ⟨s, .front c, kept, .nokeep, []⟩
+    | .clone _ => ⟨s, .front c, kept, .nokeep, []⟩
+    | .kick => if cfg.isFront c.1 then ⟨markClosing s c, .front c, kept, .ok, []⟩ else ⟨s, .front c, kept, .nons, []⟩
+    | .busy => ⟨s, .front c, kept, (if cfg.isFront c.1 then .ok else .nons), []⟩
     | .updRaw => ⟨s, .front c, kept, .ok, []⟩
     | .pushTo _ | .fromF _ | .fromRaw => ⟨s, .front c, kept, .badop, []⟩
 
@@ -296,6 +319,13 @@ def backQuery (cfg : Cfg) (s : State V) (b : Back V) : Back V × Res V :=
     | some m =>
       let r := b.fromJson (SData.toJson m)
       (r.1, if r.2 then .panic else .ok)
+
+/-- `BackSession.Kick` → `sys.kick` → `ClientSessions.Kick`: unknown front / unknown session → nothing -/
+def backKick (cfg : Cfg) (s : State V) (b : Back V) : State V :=
+  if !s.reach cfg b.serverId then s
+  else match lget s.fronts b.target with
+    | none => s
+    | some _ => markClosing s b.target
 
 /-- one statement on a BackSession -/
 def sstepBack (cfg : Cfg) (s : State V) (b : Back V) (kept : Option String) (op : SOp V) : SR V :=
@@ -325,6 +355,18 @@ def sstepBack (cfg : Cfg) (s : State V) (b : Back V) (kept : Option String) (op 
     else match kept with
       | some _ => ⟨s, .back b, kept, .nokeep, []⟩
       | none => ⟨s, .back b, some h, .ok, []⟩
+  | .kick =>
+    if b.ns = "" then ⟨s, .back b, kept, .nons, []⟩
+    else ⟨backKick cfg s b, .back b, kept, .ok, []⟩
+  | .busy => ⟨s, .back b, kept, (if b.ns = "" then .nons else .ok), []⟩
+  | .clone h =>
+    if b.ns = "" then ⟨s, .back b, kept, .nokeep, []⟩
+    else match lget s.handles h with
+      | some _ => ⟨s, .back b, kept, .nokeep, []⟩
+      | none =>
+        match b.getID with
+        | none => ⟨s, .back b, kept, .panic, []⟩                 -- `from.GetID()` type-asserts
+        | some uid => ⟨{ s with handles := lset s.handles h (Back.init b.ns b.serverId b.netId uid) }, .back b, kept, .ok, []⟩
   | .pushTo c =>
     match lget s.fronts c with
     | none => ⟨s, .back b, kept, .badop, []⟩
@@ -383,7 +425,7 @@ inductive Op (V : Type) where
   | on (h : String) (script : List (SOp V))
   | snap
   /-- `Cluster.UpdateClusterTopology`: the services in `away` are not members, every other service is,
-  published with the node state `states` gives it (0 Init, 1 Working, 2 Retiring, 3 Retired) -/
+  published with the node state `states` gives it (0 Init, 1 Working, 2 Retiring, 3 Retired), in this order -/
   | topo (away : List String) (states : List (String × Nat))
   -- pure layer
   | pMkf (c : Conn)
@@ -413,12 +455,36 @@ def routeName (cfg : Cfg) (m : AL V) (svcType : String) : String :=
   | none => ""
   | some rk => (JVal.asStr ((lget m rk).getD (JVal.str ""))).getD ""
 
+/-- the cluster view: the members in the order `Cluster.UpdateClusterTopology` got them, each with the node
+state it is published with (0 Init, 1 Working, 2 Retiring, 3 Retired); `none` = the initial view (every
+service of the configuration, Working, in configuration order) -/
+abbrev View := Option (List (String × Nat))
+
+def viewOf (cfg : Cfg) : View → List (String × Nat)
+  | some v => v
+  | none => cfg.services.map fun x => (x.1, 1)
+
+/-- `app.defaultRoute` (the route function of every service type nobody registered a rule for):
+`GetWorkServices(type).Items[0].Name` — the first WORKING member of that type in view order, whatever the
+session holds; none → `route.NoService` (no service of that name exists) -/
+def defaultRoute (cfg : Cfg) (vw : View) (svcType : String) : String :=
+  match (viewOf cfg vw).find? (fun e => cfg.typeOf e.1 == some svcType && e.2 == 1) with
+  | some e => e.1
+  | none => "no_service"
+
+/-- `RoutePID(serviceType, fs)`: the registered rule reads the session, the default route the cluster view
+(`dr` = `defaultRoute cfg view` at the moment of the request) -/
+def targetName (cfg : Cfg) (dr : String → String) (m : AL V) (svcType : String) : String :=
+  match lget cfg.routeKey svcType with
+  | none => dr svcType
+  | some _ => routeName cfg m svcType
+
 structure StepR (V : Type) where
   st : State V
   obs : Obs V
   evs : List (Ev V)
 
-def stepReq (cfg : Cfg) (s : State V) (c : Conn) (svcType : String) (ntf : Bool) (script : List (SOp V)) : StepR V :=
+def stepReq (cfg : Cfg) (dr : String → String) (s : State V) (c : Conn) (svcType : String) (ntf : Bool) (script : List (SOp V)) : StepR V :=
   match lget s.fronts c with
   | none => ⟨s, .closed, []⟩
   | some m =>
@@ -429,7 +495,7 @@ def stepReq (cfg : Cfg) (s : State V) (c : Conn) (svcType : String) (ntf : Bool)
       ⟨t.st, .ran c.1 none t.res (if ntf then .none else .ok), t.evs⟩
     else
       -- `ForwarderComponent.Forward`
-      let name := routeName cfg m svcType
+      let name := targetName cfg dr m svcType
       match s.memberType cfg name with
       | none => ⟨s, .noTarget (if ntf then .none else .err), []⟩
       | some ty =>
@@ -450,7 +516,7 @@ def snapOf (cfg : Cfg) (s : State V) : List (Conn × Option (AL V)) :=
   (cfg.services.filter (·.2.2)).flatMap fun f =>
     ((s.fronts.filter (fun e => e.1.1 = f.1)).foldr insertConn []).map fun e => (e.1, SData.toJson e.2)
 
-def step (cfg : Cfg) (s : State V) : Op V → StepR V
+def step (cfg : Cfg) (dr : String → String) (s : State V) : Op V → StepR V
   | .openC f =>
     if !cfg.isFront f then ⟨s, .badop, []⟩
     else
@@ -461,8 +527,8 @@ def step (cfg : Cfg) (s : State V) : Op V → StepR V
     | none => ⟨s, .closed, []⟩
     | some _ =>
       if !cfg.isFront c.1 then ⟨s, .closed, []⟩
-      else ⟨{ s with fronts := ldel s.fronts c }, .ok, [Ev.closed c]⟩
-  | .req c svcType ntf script => stepReq cfg s c svcType ntf script
+      else ⟨markClosing s c, .ok, []⟩      -- the reader sees EOF: `Close()`, the removal is queued
+  | .req c svcType ntf script => stepReq cfg dr s c svcType ntf script
   | .mk h at_ c uid =>
     match cfg.typeOf at_, lget s.handles h with
     | some _, none => ⟨{ s with handles := lset s.handles h (Back.init at_ c.1 c.2 uid) }, .ok, []⟩
@@ -501,12 +567,51 @@ def step (cfg : Cfg) (s : State V) : Op V → StepR V
         let t := runScript cfg s (.back b) (some h) script
         ⟨storeKept t.st t.sess t.kept, .script t.res, t.evs⟩
 
+/-! ### the end of a turn: the queued removals run
+
+`step` is what the front-end and the services do up to the point where the front-end's scheduler
+queue is drained: `ClientSessions.RemoveSession` of every connection closed meanwhile runs then —
+`delete(s.sessions, id)`, after which the close handlers (`HandlerComponent.OnSessionRemove`,
+`onCloseCB`) are handed the FrontSession with its data as of that moment. -/
+
+/-- `RemoveSession` of one connection: (state, what the close handlers saw so far) -/
+def removeOne (acc : State V × List (Conn × AL V)) (c : Conn) : State V × List (Conn × AL V) :=
+  match lget acc.1.fronts c with
+  | some m => ({ acc.1 with fronts := ldel acc.1.fronts c }, acc.2 ++ [(c, m)])
+  | none => acc
+
+/-- all queued removals, oldest first (`closing` is newest first) -/
+def flush (s : State V) : State V × List (Conn × AL V) :=
+  s.closing.foldr (fun c acc => removeOne acc c) ({ s with closing := [] }, [])
+
+/-- an answer relayed to a connection whose socket is closed is lost (`ClientSession.ResponseMID`: "closed") -/
+def silence (closing : List Conn) : Op V → Obs V → Obs V
+  | .req c _ _ _, .ran a e rs .ok => if closing.contains c then .ran a e rs .none else .ran a e rs .ok
+  | _, o => o
+
+structure TurnR (V : Type) where
+  st : State V
+  obs : Obs V
+  evs : List (Ev V)
+  /-- the connections removed at the end of the turn, each with the map its close handlers saw -/
+  gone : List (Conn × AL V)
+
+/-- one operation including the end of the turn -/
+def stepF (cfg : Cfg) (dr : String → String) (s : State V) (op : Op V) : TurnR V :=
+  let r := step cfg dr s op
+  let f := flush r.st
+  ⟨f.1, silence r.st.closing op r.obs, r.evs ++ f.2.map (fun e => Ev.closed e.1), f.2⟩
+
 /-- a whole history: final state and the events in order -/
-def run (cfg : Cfg) (s : State V) : List (Op V) → State V × List (Ev V)
+def nextView (vw : View) : Op V → View
+  | .topo _ sts => some sts
+  | _ => vw
+
+def run (cfg : Cfg) (vw : View) (s : State V) : List (Op V) → State V × List (Ev V)
   | [] => (s, [])
   | op :: ops =>
-    let r := step cfg s op
-    let t := run cfg r.st ops
+    let r := stepF cfg (defaultRoute cfg vw) s op
+    let t := run cfg (nextView vw op) r.st ops
     (t.1, r.evs ++ t.2)
 
 end
